@@ -27,8 +27,25 @@ CFG_EQ = "INIT Init\nNEXT Next\nINVARIANT InvEq\nCHECK_DEADLOCK FALSE\n"
 _SENT = object()
 
 
+def absv(f):
+    """abstract value of a Field: its value text, marked "n" when the Field has no start line; a Field with a line
+    must carry the line it was created with (10 x its numeric value in the T2 universe)"""
+    v = f.value
+    if f.start_line is None:
+        return f"{v}~"
+    if isinstance(v, str) and v.isdigit() and f.start_line != 10 * int(v):
+        return f"{v}@line{f.start_line}"
+    return v
+
+
+def mkfield(model, k, v):
+    if isinstance(v, str) and v.endswith("~"):
+        return model.Field(k, v[:-1])
+    return model.Field(k, v, 10 * int(v) if isinstance(v, str) and v.isdigit() else 0)
+
+
 def proj_fields(fs):
-    return [{"k": f.key, "v": f.value} for f in fs]
+    return [{"k": f.key, "v": absv(f)} for f in fs]
 
 
 def apply_op(entry, op, model):
@@ -38,16 +55,18 @@ def apply_op(entry, op, model):
     try:
         o = op["op"]
         if o == "set_field":
-            r = entry.set_field(Field(k, v))
+            r = entry.set_field(mkfield(model, k, v))
             return {"t": "none"} if r is None else {"t": "other", "repr": repr(r)}
         if o == "setitem":
-            entry[k] = v
+            if not (isinstance(v, str) and v.endswith("~")):
+                raise core.MachineryError("item assignment takes an abstract value without a line (suffix ~)")
+            entry[k] = v[:-1]
             return {"t": "none"}
         if o == "pop":
             r = entry.pop(k, _SENT)
             if r is _SENT:
                 return {"t": "default"}
-            return {"t": "field", "k": r.key, "v": r.value}
+            return {"t": "field", "k": r.key, "v": absv(r)}
         if o == "delitem":
             try:
                 del entry[k]
@@ -58,12 +77,15 @@ def apply_op(entry, op, model):
             r = entry.get(k, _SENT)
             if r is _SENT:
                 return {"t": "default"}
-            return {"t": "field", "k": r.key, "v": r.value}
+            return {"t": "field", "k": r.key, "v": absv(r)}
         if o == "contains":
             return {"t": "bool", "b": k in entry}
         if o == "getitem":
             try:
-                return {"t": "val", "v": entry[k]}
+                val = entry[k]
+                if k not in ("ENTRYTYPE", "ID"):
+                    val = absv(entry.fields_dict[k]) if k in entry.fields_dict else val
+                return {"t": "val", "v": val}
             except KeyError:
                 return {"t": "KeyError"}
     except Exception as e:  # any other exception is an observable result
@@ -75,13 +97,14 @@ def observe(entry):
     d = entry.fields_dict
     return {
         "t": proj_fields(entry.fields),
-        "d": [{"k": k, "v": f.value} for k, f in d.items()],
-        "it": [{"k": k, "v": v} for k, v in entry.items()],
+        "d": [{"k": k, "v": absv(f)} for k, f in d.items()],
+        "it": [{"k": k, "v": v} for k, v in list(entry.items())[:2]] + [{"k": f.key, "v": absv(f)} for f in entry.fields
+                                                                          if any(k2 == f.key and v2 == f.value for k2, v2 in list(entry.items())[2:])],
     }
 
 
 def replay_edge(edge, model):
-    e = model.Entry("article", "key1", [model.Field(f["k"], f["v"], i) for i, f in enumerate(edge["s"])])
+    e = model.Entry("article", "key1", [mkfield(model, f["k"], f["v"]) for f in edge["s"]])
     r = apply_op(e, edge["i"], model)
     obs = observe(e)
     obs["r"] = r
@@ -262,12 +285,22 @@ def run(chk: core.Check):
         if len(lib.entries) != 1:
             raise core.MachineryError("C19 generator produced an unparsable entry: " + text)
         e = lib.entries[0]
+        if cid % 2:
+            # the entry has been through the shipped middlewares before (their metadata is on it) and was edited since:
+            # a mapping operation must not depend on that
+            keep = [(f.key, f.value, f.start_line) for f in e.fields]
+            mws = bib.middlewares
+            for mw in (mws.SortFieldsAlphabeticallyMiddleware(), mws.SortFieldsCustomMiddleware(order=("b", "a")), mws.NormalizeFieldKeys(),
+                       mws.MonthIntMiddleware(), mws.AddEnclosingMiddleware(reuse_previous_enclosing=True, enclose_integers=False, default_enclosing="{")):
+                lib = mw.transform(lib)
+            e = lib.entries[0]
+            e.fields = [model.Field(k0, v0, l0) for k0, v0, l0 in keep]
         case = {"id": cid, "ety": e.entry_type, "eid": e.key, "init": proj_fields(e.fields), "ev": []}
         depth = rnd.choice([30, 60, 200]) if chk.tier == "thorough" else rnd.choice([30, 60])
         for _ in range(depth):
             o = rnd.choice(["set_field", "setitem", "pop", "delitem", "get", "contains", "getitem", "getitem"])
             k = rnd.choice(pool + (["ENTRYTYPE", "ID"] if o == "getitem" else []))
-            op = {"op": o, "k": k, "v": rnd.choice(vals) if o in ("set_field", "setitem") else "-"}
+            op = {"op": o, "k": k, "v": (rnd.choice(vals) + ("~" if o == "setitem" else "")) if o in ("set_field", "setitem") else "-"}
             r = apply_op(e, op, model)
             ev = dict(op)
             ev["r"] = r
@@ -294,11 +327,23 @@ def run(chk: core.Check):
     pairs = []
     objs = [b for b in lib.blocks if not isinstance(b, model.ParsingFailedBlock)]
     objs += [f for b in lib.entries for f in b.fields]
+    # entries held inside failed blocks (duplicate key, duplicate field key) are entries like any other
+    lib_d = bib.parse_string("@a{k, f = 1, f = 2, g = 3}\n@a{k2, x = {y}}\n@a{k2, x = {z}}\n@string{s = 1}\n@string{s = 2}", parse_stack=[])
+    objs += [b.ignore_error_block for b in lib_d.failed_blocks if b.ignore_error_block is not None]
+    raw_lib = bib.parse_string(SAMPLE_DOC, parse_stack=[])          # blocks no middleware has touched
+    objs += [b for b in raw_lib.blocks if not isinstance(b, model.ParsingFailedBlock)]
     pid = 0
     for b in objs:
         for how, o in (("copy", copy.copy(b)), ("deepcopy", copy.deepcopy(b)), ("self", b)):
-            pairs.append({"id": pid, "what": how, "x": proj_obj(b, model), "y": proj_obj(o, model),
-                          "eq": b == o, "ne": b != o, "eq_rev": o == b}); pid += 1
+            # the verdicts are taken BEFORE the projection reads anything, and after READING (not changing) one side only:
+            # looking at a block must not change what it is equal to
+            if hasattr(b, "parser_metadata"):
+                b.parser_metadata.get("x")
+                b.get_parser_metadata("x")
+            if hasattr(b, "fields"):
+                list(b.items()), b.fields_dict
+            verdicts = {"eq": b == o, "ne": b != o, "eq_rev": o == b}
+            pairs.append({"id": pid, "what": how, "x": proj_obj(b, model), "y": proj_obj(o, model), **verdicts}); pid += 1
         for lab, o in perturbations(b, model, rnd):
             pairs.append({"id": pid, "what": lab, "x": proj_obj(b, model), "y": proj_obj(o, model),
                           "eq": b == o, "ne": b != o, "eq_rev": o == b}); pid += 1
